@@ -46,6 +46,11 @@ CHECKS = {
    note='Reply texts are ASCII tags (reply parsing is C17); continuation canonicaliser validated differentially.',
    technique='exhaustive enumeration of reply scripts x segmentations on the real client with a gating scripted peer',
    design='5/C10'),
+ 'C12': dict(level='model_checking', engine='E1-vloop',
+   text='Queue world on the virtual loop with a virtual clock (due times compared exactly): 44 (quick) configurations of backoff sequences (incl. 0 and equal due times), 1-2 (3) messages, driver scripts with flush() at every position, 0-2 pre-stored messages loaded at start-up, wait() announcements, pools, all four backends; all schedules with <= d deviations x relay outcomes with <= dd non-default answers, quiescent states merged.  Monitors at every attempt and at every moment virtual time is about to advance: no attempt before due unless flushed, nothing due left on the timetable, every stored known message in flight or scheduled with a wake-up no later than the earliest due time, flush() returns without any timer/environment event and its messages are attempted at once; nothing outstanding at final quiescence.',
+   note='time.time() in slimta.queue is rebound to the virtual clock; fake redis client.',
+   technique='stateless deviation-bounded model checking on a virtual event loop and clock with online monitors at quiescent points',
+   design='5/C12'),
  'C16': dict(level='exploration', engine='E1-vloop',
    text='Every recipient list of length 0..4 over 6-7 addresses (duplicates, mixed-case, missing/empty domains) x every chain (order and repetition) of <= 2 (quick) / <= 3 (thorough) policies out of 11 (both splits, 4 forwarding rule sets, 3 header policies, a policy returning its input, a policy returning input + copy) x Date/Message-Id present/absent, through the real Queue.enqueue on a recording storage; oracle: independent reference model of the policies (recipient multiset and grouping), same sender/body/original headers, aliasing probe on the written objects, Date/Message-Id/Received rules.',
    note='Grouping is judged by the documented policy definitions; text of added headers and order of written envelopes are not judged; collapse of an original duplicate would be tolerated (never observed).',
